@@ -54,6 +54,7 @@ const (
 )
 
 type event struct {
+	abs  bool // the offset is not subject to the Function-constructor wrapper shift (it lies in an eval source)
 	kind evKind
 	off  int // byte offset in the frame's current file
 	end  int // inclusive end offset for extent events
@@ -89,10 +90,30 @@ const (
 	preEvalL // a completed direct eval of a long multi-line source
 	preBr1   // one line break
 	preBr2   // two line breaks and a space
+	// excursions that temporarily switch the frame's file or offset and are LEFT BY AN
+	// EXCEPTION which is caught before the site: the frame must be itself again
+	preThrowEval      // direct eval whose code throws at run time, caught in the same function
+	preThrowEvalL     // the same with a long multi-line eval source
+	preThrowEvalCall  // direct eval whose code calls a function that throws
+	preThrowIndirect  // indirect eval whose code throws
+	preThrowFunction  // Function-constructor code that throws
+	preThrowGetter    // accessor (implicit call) that throws
+	preThrowHost      // a Go host function runs a nested script that throws and re-panics the error
+	preThrowCallee    // the direct eval is in a callee which does not catch; caught here (caller)
+	preThrowCallee2   // ... caught by the caller's caller
 	nPre
 )
 
-var preNames = []string{"none", "spaces", "tab", "stmt", "call", "eval1", "evalL", "br1", "br2"}
+var preNames = []string{"none", "spaces", "tab", "stmt", "call", "eval1", "evalL", "br1", "br2",
+	"throw-eval", "throw-evalL", "throw-evalcall", "throw-indirect", "throw-Function", "throw-getter", "throw-host", "throw-callee", "throw-callee2"}
+
+// evalThrowLongSrc is a long multi-line direct-eval source that ends by throwing.
+var evalThrowLongSrc = evalLongSrc + "\nthrow 1;"
+
+const throwHelpers = ` function thrower(){ throw new Error("t"); } var ev = eval; var FT = new Function("throw new Error(\"f\")");` +
+	` var gx = {get p(){ throw new Error("g"); }}; function hx1(){ eval("throw 1"); } function hx2(){ hx1(); }`
+
+func (p preKind) isThrow() bool { return p >= preThrowEval && p < nPre }
 
 // layout places every site of a program: structural separator before the
 // preceding material, the preceding material itself, the line terminator.
@@ -389,7 +410,65 @@ func (g *gen) pre(w *tbuf, fr *frame, lvl int) {
 		w.put(g.T())
 	case preBr2:
 		w.put(g.T() + g.T() + " ")
+	default:
+		g.preThrow(w, fr, p)
 	}
+}
+
+// preThrow writes an excursion that is left by an exception caught in this frame.
+func (g *gen) preThrow(w *tbuf, fr *frame, p preKind) {
+	ref := func(o int) { fr.events = append(fr.events, event{kind: evRef, off: o}) }
+	w.put("try { ")
+	switch p {
+	case preThrowEval, preThrowEvalL, preThrowEvalCall:
+		f := &gfile{src: "throw 1"}
+		o := w.off()
+		switch p {
+		case preThrowEval:
+			w.put(`eval("throw 1");`)
+		case preThrowEvalL:
+			f = &gfile{src: evalThrowLongSrc}
+			w.put(`eval(EVT);`)
+		case preThrowEvalCall:
+			f = &gfile{src: "thrower()"}
+			w.put(`eval("thrower()");`)
+		}
+		ref(o)
+		if p == preThrowEvalCall {
+			// the call made by the eval code is recorded in this frame (offset 0 of the eval source)
+			fr.events = append(fr.events, event{kind: evRef, off: 0, abs: true})
+		}
+		// the eval code is done (by an exception): the frame has its own file again
+		fr.events = append(fr.events, event{kind: evEvalDone, file: f})
+		g.hasEvalDone = true
+	case preThrowIndirect:
+		ref(w.put(`ev("throw 1");`))
+	case preThrowFunction:
+		ref(w.put(`FT();`))
+	case preThrowGetter:
+		w.put(`gx.p;`)
+	case preThrowHost:
+		ref(w.put(`hostrun("zz8");`))
+	case preThrowCallee:
+		ref(w.put(`hx1();`))
+	case preThrowCallee2:
+		ref(w.put(`hx2();`))
+	default:
+		panic("pre kind")
+	}
+	w.put(" } catch (e) {} ")
+}
+
+func (g *gen) usesThrowHelpers() bool { return g.lay.pre.isThrow() || g.lay.rotate }
+
+// preHelpers renders the global helpers the preceding material needs.
+func (g *gen) preHelpers() string {
+	h := ""
+	if g.usesThrowHelpers() {
+		h += throwHelpers
+		h += " var EVT = " + ox.JSLit(evalThrowLongSrc) + ";"
+	}
+	return h
 }
 
 func (g *gen) usesEvalLong() bool {
@@ -400,7 +479,7 @@ func (g *gen) usesEvalLong() bool {
 func (g *gen) build() string {
 	g.top = &gfile{name: g.fname}
 	w := &tbuf{f: g.top}
-	w.put("function nop(){}" + g.argHelpers() + g.sep())
+	w.put("function nop(){}" + g.argHelpers() + g.preHelpers() + g.sep())
 	if g.usesEvalLong() {
 		w.put(g.sep() + "var EV = " + ox.JSLit(evalLongSrc) + ";")
 	}
@@ -683,7 +762,7 @@ func (g *gen) buildFiles() []script {
 	top := g.push("", files[0])
 	prev := top
 	// entry script (run last)
-	bufs[0].put("function nop(){}" + g.argHelpers() + g.sep())
+	bufs[0].put("function nop(){}" + g.argHelpers() + g.preHelpers() + g.sep())
 	if g.usesEvalLong() {
 		bufs[0].put("var EV = " + ox.JSLit(evalLongSrc) + ";" + g.sep())
 	}
